@@ -294,7 +294,7 @@ func TestVerif_C40_SubmitResult(t *testing.T) {
 		misb := in.Get("misbehaved").Ints()
 		submitter := in.Get("submitter").Int()
 		pc := c.Get("pc").Str()
-		if pc == "aborted" {
+		if pc == "aborted" && c.Get("outcome").Str() == "not awaiting the result" {
 			k.dkgState = []tbtc.DKGState{tbtc.Challenge, tbtc.Idle, tbtc.AwaitingSeed}[pick%3]
 		}
 		nontrivial := ""
@@ -303,6 +303,9 @@ func TestVerif_C40_SubmitResult(t *testing.T) {
 		}
 		rep.Eval(nontrivial, c.X)
 		rep.Count("pc/"+pc, 1)
+		if pc == "aborted" {
+			rep.Count("aborted/"+c.Get("outcome").Str(), 1)
+		}
 
 		// every member holds its own copy of the result (same content, misbehaviour recorded in its own order)
 		resultOf := func() *dkg.Result { return c40DkgResult(t, rnd, n, gp.HonestThreshold, misb, groupKey) }
@@ -363,15 +366,23 @@ func TestVerif_C40_SubmitResult(t *testing.T) {
 		}
 		// ---- Gate .. Submit
 		var suberr error
+		superseded := c.Get("outcome").Str() == "superseded while waiting"
+		ctx, cancel := context.WithCancel(context.Background())
+		wait := &c40Wait{}
+		if superseded {
+			wait.cancel = cancel
+		}
 		if p := c40Catch(func() {
-			suberr = tbtc.VerifC40SubmitResult(context.Background(), seat(submitter), gp, gsr, group.MemberIndex(submitter), resultOf(), sigs)
+			suberr = tbtc.VerifC40SubmitResult(ctx, seat(submitter), gp, gsr, group.MemberIndex(submitter), resultOf(), sigs, wait.fn)
 		}); p != nil {
+			cancel()
 			rep.Diverge(key+":submit-panic", fmt.Sprintf("SubmitResult panicked: %v", p), c.X, nil, nil)
 			continue
 		}
+		cancel()
 		if len(hazards) > 0 {
 			rep.Count("hazard-realized", 1)
-			if len(sigs) >= gp.GroupQuorum && k.dkgState == tbtc.AwaitingResult && (suberr != nil || len(k.submitted) != 1) {
+			if len(sigs) >= gp.GroupQuorum && k.dkgState == tbtc.AwaitingResult && !superseded && (suberr != nil || len(k.submitted) != 1) {
 				rep.Diverge("sig-accepted:"+hazards[0], fmt.Sprintf("VerifySignature admitted a %s signature message; with it the member holds a quorum of signatures but cannot submit the result: %v (contract precheck: %v)",
 					hazards[0], suberr, k.prechecks), c.X, "accepted = "+c.Get("accepted").JSON(), fmt.Sprint(suberr))
 			}
@@ -388,7 +399,12 @@ func TestVerif_C40_SubmitResult(t *testing.T) {
 				problems = append(problems, "the contract was called although the gate must have stopped the member")
 			}
 		case "aborted":
-			if suberr != nil || len(k.prechecks) != 0 || len(k.submitted) != 0 {
+			if superseded {
+				// validated, waited for its block, context done: nothing is submitted
+				if suberr != nil || len(k.prechecks) != 1 || k.prechecks[0] != "" || len(k.submitted) != 0 {
+					problems = append(problems, fmt.Sprintf("superseded while waiting: expected a valid precheck and a silent return, got err=%v prechecks=%q submissions=%d", suberr, k.prechecks, len(k.submitted)))
+				}
+			} else if suberr != nil || len(k.prechecks) != 0 || len(k.submitted) != 0 {
 				problems = append(problems, fmt.Sprintf("DKG not awaiting the result: expected a silent return, got err=%v prechecks=%d submissions=%d", suberr, len(k.prechecks), len(k.submitted)))
 			}
 		case "done":
@@ -397,6 +413,9 @@ func TestVerif_C40_SubmitResult(t *testing.T) {
 			}
 			if len(k.prechecks) != 1 || k.prechecks[0] != "" {
 				problems = append(problems, fmt.Sprintf("contract validation of the assembled result: %q", k.prechecks))
+			}
+			if want := uint64(1000) + uint64(submitter-1)*uint64(tbtc.VerifC40DkgDelayStep); len(wait.blocks) != 1 || wait.blocks[0] != want {
+				problems = append(problems, fmt.Sprintf("waited for blocks %v before submitting, expected block %d (current block + (index-1) * step)", wait.blocks, want))
 			}
 			if len(k.submitted) != 1 || !k.submitRule[0] {
 				problems = append(problems, fmt.Sprintf("submissions: %d, submitter rule %v", len(k.submitted), k.submitRule))
@@ -452,6 +471,21 @@ func TestVerif_C40_SubmitResult(t *testing.T) {
 	}
 }
 
+// c40Wait is the waitForBlockFn handed to the submitters: it records the block waited for and, for the
+// "superseded" branch, cancels the context the way the executor does when somebody else's submission is seen.
+type c40Wait struct {
+	blocks []uint64
+	cancel context.CancelFunc
+}
+
+func (w *c40Wait) fn(ctx context.Context, block uint64) error {
+	w.blocks = append(w.blocks, block)
+	if w.cancel != nil {
+		w.cancel()
+	}
+	return nil
+}
+
 func pcHasHash(c kit.V) bool { return c.Has("preferredHash") || c.Has("claimHash") }
 
 func TestVerif_C40_SubmitClaim(t *testing.T) {
@@ -487,10 +521,14 @@ func TestVerif_C40_SubmitClaim(t *testing.T) {
 			Keys: map[string][]byte{env.Get("key").Str(): keyBytes}, IDMap: idmap}
 		submitter := in.Get("submitter").Int()
 		pc := c.Get("pc").Str()
-		if pc == "aborted" {
+		superseded := c.Get("outcome").Str() == "superseded while waiting"
+		if pc == "aborted" && !superseded {
 			// somebody else's claim was accepted in the meantime
 			k.currentNonce = new(big.Int).Add(nonce, big.NewInt(int64(1+pick%3)))
 			k.wallet.Nonce = k.currentNonce
+		}
+		if pc == "aborted" {
+			rep.Count("aborted/"+c.Get("outcome").Str(), 1)
 		}
 		nontrivial := ""
 		if pc != "failed" {
@@ -552,12 +590,19 @@ func TestVerif_C40_SubmitClaim(t *testing.T) {
 			continue
 		}
 		var suberr error
+		ctx, cancel := context.WithCancel(context.Background())
+		wait := &c40Wait{}
+		if superseded {
+			wait.cancel = cancel
+		}
 		if p := c40Catch(func() {
-			suberr = tbtc.VerifC40SubmitClaim(context.Background(), seat(submitter), gp, ids, group.MemberIndex(submitter), mkClaim(nonce), sigs)
+			suberr = tbtc.VerifC40SubmitClaim(ctx, seat(submitter), gp, ids, group.MemberIndex(submitter), mkClaim(nonce), sigs, wait.fn)
 		}); p != nil {
+			cancel()
 			rep.Diverge(key+":submit-panic", fmt.Sprintf("SubmitClaim panicked: %v", p), c.X, nil, nil)
 			continue
 		}
+		cancel()
 		if len(hazards) > 0 {
 			rep.Count("hazard-realized", 1)
 			if len(sigs) >= gp.HonestThreshold && pc != "aborted" && suberr != nil {
@@ -574,9 +619,15 @@ func TestVerif_C40_SubmitClaim(t *testing.T) {
 			}
 		case "aborted":
 			if suberr != nil || len(k.notified) != 0 {
-				problems = append(problems, fmt.Sprintf("nonce moved on: expected a silent return, got err=%v, contract calls %d", suberr, len(k.notified)))
+				problems = append(problems, fmt.Sprintf("%s: expected a silent return, got err=%v, contract calls %d", c.Get("outcome").Str(), suberr, len(k.notified)))
+			}
+			if superseded && len(wait.blocks) != 1 {
+				problems = append(problems, "superseded while waiting: the member did not reach the wait for its submission block")
 			}
 		case "done":
+			if want := uint64(1000) + uint64(submitter-1)*uint64(tbtc.VerifC40ClaimDelayStep); len(wait.blocks) != 1 || wait.blocks[0] != want {
+				problems = append(problems, fmt.Sprintf("waited for blocks %v before submitting, expected block %d", wait.blocks, want))
+			}
 			if suberr != nil || len(k.notified) != 1 || k.notified[0] != "" {
 				problems = append(problems, fmt.Sprintf("a claim that passed the gate was not accepted: err=%v contract=%q", suberr, k.notified))
 			} else {
@@ -712,7 +763,7 @@ func TestVerif_C40_RealParameters(t *testing.T) {
 		rep.Eval(nontrivial, map[string]interface{}{"misbehaved": nm, "signatures": ns, "distinctOperators": distinct})
 		var suberr error
 		if p := c40Catch(func() {
-			suberr = tbtc.VerifC40SubmitResult(context.Background(), w.chains[ids[submitter-1]], gp, gsr, group.MemberIndex(submitter), resultOf(), sigs)
+			suberr = tbtc.VerifC40SubmitResult(context.Background(), w.chains[ids[submitter-1]], gp, gsr, group.MemberIndex(submitter), resultOf(), sigs, (&c40Wait{}).fn)
 		}); p != nil {
 			rep.Diverge(key+":panic", fmt.Sprintf("SubmitResult panicked: %v", p), nil, nil, nil)
 			continue
@@ -740,5 +791,92 @@ func TestVerif_C40_RealParameters(t *testing.T) {
 			rep.Count("stopped", 1)
 		}
 	}
-	_ = solClaimThreshold
+	// ---- inactivity claims with the real constants
+	for run := 0; run < runs; run++ {
+		chainID := c40.IntOf([]string{"cMainnet", "cSepolia", "cDev", "cWide"}[rnd.Intn(4)], rnd.Intn(8))
+		nonce := c40.IntOf([]string{"nZero", "nSmall", "nLarge"}[rnd.Intn(3)], rnd.Intn(8))
+		walletKey, keyBytes, err := c40.GroupKey([]string{"kFull", "kShortX", "kShortY", "kShortXY"}[rnd.Intn(4)], rnd.Intn(8))
+		if err != nil {
+			t.Fatal(err)
+		}
+		// the wallet's signing group: the DKG group minus up to size-quorum misbehaved members
+		wn := gp.GroupQuorum + rnd.Intn(gp.GroupSize-gp.GroupQuorum+1)
+		idmap := c40.IDMaps[rnd.Intn(len(c40.IDMaps))]
+		distinct := 3 + rnd.Intn(wn-2)
+		ids := make([]uint32, wn)
+		for i := range ids {
+			ids[i] = idmap(1 + rnd.Intn(distinct))
+		}
+		k := &c40Contracts{validator: c40.DkgValidator{ChainID: chainID}, claimThreshold: solClaimThreshold,
+			walletID: c40.WalletID(keyBytes), currentNonce: new(big.Int).Set(nonce)}
+		w := c40NewWorld(ids, chainID, k)
+		k.wallet = c40.RegisteredWallet{MembersIdsHash: c40.Keccak(c40.AbiEncode(c40.Arr("uint32[]", c40BigIDs(ids)))), PublicKey: keyBytes, Nonce: new(big.Int).Set(nonce)}
+		ni := 1 + rnd.Intn(wn-gp.HonestThreshold)
+		perm := rnd.Perm(wn)
+		var reported []group.MemberIndex
+		for _, p := range perm[:ni] {
+			reported = append(reported, group.MemberIndex(p+1))
+		}
+		active := perm[ni:]
+		ns := []int{gp.HonestThreshold - 1, gp.HonestThreshold, gp.HonestThreshold, gp.HonestThreshold + 1, len(active)}[rnd.Intn(5)]
+		if ns > len(active) {
+			ns = len(active)
+		}
+		mkClaim := func() *inactivity.ClaimPreimage {
+			r := append([]group.MemberIndex{}, reported...)
+			rnd.Shuffle(len(r), func(i, j int) { r[i], r[j] = r[j], r[i] })
+			return inactivity.NewClaimPreimage(nonce, walletKey, r, run%2 == 0)
+		}
+		submitter := active[0] + 1
+		sigs := map[group.MemberIndex][]byte{}
+		key := fmt.Sprintf("realclaim:inactive=%d,sigs=%d", ni, ns)
+		bad := false
+		for _, a := range active[:ns] {
+			sc, e := tbtc.VerifC40SignClaim(w.chains[ids[a]], mkClaim())
+			if e != nil {
+				rep.Diverge(key+":sign", "SignClaim failed: "+e.Error(), nil, nil, nil)
+				bad = true
+				break
+			}
+			ok, e := tbtc.VerifC40VerifyClaimSignature(w.chains[ids[submitter-1]], sc)
+			if !ok || e != nil {
+				rep.Diverge(key+":verify", fmt.Sprintf("an honest claim signature was rejected: %v", e), nil, nil, nil)
+				bad = true
+				break
+			}
+			sigs[group.MemberIndex(a+1)] = sc.Signature
+		}
+		if bad {
+			continue
+		}
+		nontrivial := ""
+		if ns >= gp.HonestThreshold {
+			nontrivial = fmt.Sprintf("%s/%d", key, run)
+		}
+		rep.Eval(nontrivial, map[string]interface{}{"wallet": wn, "inactive": ni, "signatures": ns})
+		var suberr error
+		if p := c40Catch(func() {
+			suberr = tbtc.VerifC40SubmitClaim(context.Background(), w.chains[ids[submitter-1]], gp, ids, group.MemberIndex(submitter), mkClaim(), sigs, (&c40Wait{}).fn)
+		}); p != nil {
+			rep.Diverge(key+":panic", fmt.Sprintf("SubmitClaim panicked: %v", p), nil, nil, nil)
+			continue
+		}
+		if len(k.notified) > 0 && k.notified[0] != "" {
+			rep.Diverge(key, fmt.Sprintf("with the real constants (client honest threshold %d, contract %d) a claim naming %d of %d members with %d signatures passed the client's gate and is rejected by the contract: %s",
+				gp.HonestThreshold, solClaimThreshold, ni, wn, ns, k.notified[0]), nil, nil, k.notified[0])
+			continue
+		}
+		if ns >= gp.HonestThreshold {
+			if suberr != nil || len(k.notified) != 1 || len(k.punished[0]) != ni {
+				rep.Diverge(key+":notsubmitted", fmt.Sprintf("a claim with enough signatures was not accepted: %v", suberr), nil, nil, nil)
+				continue
+			}
+			rep.Count("claim-accepted", 1)
+		} else {
+			if suberr == nil || len(k.notified) != 0 {
+				rep.Diverge(key+":gate", "a claim below the signature threshold was not stopped", nil, nil, nil)
+			}
+			rep.Count("claim-stopped", 1)
+		}
+	}
 }
